@@ -144,7 +144,10 @@ class C02:
             if isinstance(v, (int, float, str, bool, tuple, list, type(None), dict, set)):
                 import re as _re
 
-                out[k] = _re.sub(r" at 0x[0-9a-f]+", "", repr(v))
+                try:
+                    out[k] = _re.sub(r" at 0x[0-9a-f]+", "", repr(v))[:2000]
+                except Exception:
+                    out[k] = "<unrepresentable " + type(v).__name__ + ">"
             elif callable(v):
                 out[k] = "<callable>"
             else:
